@@ -95,6 +95,11 @@ Section Toolbox.
     end.
   Definition resolve (irks : list (list Z)) (addr : list Z) : option nat := resolve_from 0 irks addr.
 
+  (* One AddressResolver object used for a sequence of resolve() calls: the object holds nothing
+     but the key list, so the k-th result depends on the k-th address only. *)
+  Definition resolve_history (irks : list (list Z)) (addrs : list (list Z)) : list (option nat) :=
+    map (resolve irks) addrs.
+
   (* ------------------------------------------------------------------ specification *)
   (* Vol 3 Part H 2.2.1: security function e on 128-bit values, most significant octet first;
      bumble's e takes and returns the same values least significant octet first. *)
